@@ -65,6 +65,13 @@ for f, (c8, ctag, bounded, ctx, crx, tier) in FLAV.items():
     emit(f"c09_{t}_{f}_cap3_wrap", 9, "Tag", ctag.format(c=3), "Some(3)", "false", 3, "O_NOP", 1, "O_TRY_SEND | O_TRY_RECV", 6, 0, [("m.next > 3", "the ring wrapped"), ("m.q.len >= 2", "at least two values buffered at teardown")])
   emit(f"c09_t_{f}_mut_batch", 9, "Tag", newt, cap, "false", 0, "O_CLOSE_RX | O_DROP_RX | O_NOP", 1, "O_TRY_SEND_BATCH_MUT | O_SEND_BATCH", unw, 0, [("m.n_closed > 0", "a batch send reported Closed")])
 
+  if bounded:
+    # deeper bounds (thorough tier): capacity 4 (physical 4) and 5 (non-power-of-two, physical 8), every fill level 0..cap and one rotation
+    MIX = "O_TRY_SEND | O_TRY_RECV | O_TRY_SEND_BATCH | O_TRY_RECV_BATCH"
+    for cc in (4, 5):
+      emit(f"c02_t_{f}_cap{cc}_mixed", 2, "u8", c8.format(c=cc), f"Some({cc})", "false", cc, 0, 2, MIX, cc + 6, cc + 1, [("m.next > %d" % cc, "the ring wrapped"), ("m.n_batch2 > 0", "a batch receive returned two values")])
+      emit(f"c03_t_{f}_cap{cc}", 3, "u8", c8.format(c=cc), f"Some({cc})", "false", cc, 0, 2, MIX, cc + 6, 0, [("m.n_full > 0", "a send reported Full"), ("m.n_partial > 0", "a batch was partially sent")])
+
 hdr = '''//! GENERATED by gen_seq.py - phased sequential programs per flavour (see seq.rs).
 use crate::chan_seq;
 use crate::common::*;
